@@ -10,7 +10,10 @@
     `deleteRangeApplies` — the same for `Transform.delete_range`;
   * `trivialApplies` — the hypotheses of `trivialFit_replace_applies` for one request `replace(from, to, slice)` with a
     closed slice (valid document in normal form, slice content in normal form, both ends pair-aligned,
-    `fits_trivially`) and the model's answer for `ReplaceStep(from, to, slice).apply(doc)`.
+    `fits_trivially`) and the model's answer for `ReplaceStep(from, to, slice).apply(doc)`;
+  * `directApplies` — the hypotheses of `replace_applies_direct` for one request `replace(from, to, slice)` (those of
+    `deleteApplies`, `directFitB`, the slice's nodes valid, its content in normal form and without a lone high
+    surrogate) and the model's answer for the operation as a whole (`replace_step`, then `Step.apply`).
 -/
 import Lean.Data.Json
 import PM
@@ -81,4 +84,14 @@ def handleDelete (st : St) (op : String) (j : Json) : Option (D (St × Json)) :=
         ("alignedTo", Json.bool (pairAlignedB d t)),
         ("fits", match fitsTriviallyO S d f t sl with | some b => Json.bool b | none => Json.null)]),
       ("model", outcome)]))
+  | "directApplies" => some do
+    let S ← getSchema st j
+    let d ← node (← field j "doc")
+    let f ← nat (← field j "from")
+    let t ← nat (← field j "to")
+    let sl ← slice (← field j "slice")
+    return (st, ok (Json.mkObj [("hyp", Json.mkObj [("doc", docHypsJson S d f t), ("direct", Json.bool (directFitB S d f sl)),
+        ("sliceValid", Json.bool (sl.closedValid S)), ("sliceNorm", Json.bool (fnorm sl.content)),
+        ("sliceHighClosed", Json.bool (highClosedKids sl.content)), ("inlineLeaves", Json.bool (sl.inlineLeaves S))]),
+      ("model", deleteOutcome S d (replaceStep S d f t sl))]))
   | _ => none
